@@ -44,12 +44,49 @@ enum Kind {
     Late0,
 }
 
+/// The statement universe: statement number `s < 8` written in one of 8 ways: plain, leading / trailing / surrounding
+/// whitespace and newlines, trailing semicolon, mixed case with inner double whitespace, non-ASCII. The text is what
+/// the caller passes to `prepare()`; a node derives the statement id from its EXACT bytes.
+fn text_v(s: usize, tv: u8) -> String {
+    match tv {
+        1 => format!(" q{}", s),
+        2 => format!("q{}\n", s),
+        3 => format!("\n  q{}\t \n", s),
+        4 => format!("q{};", s),
+        5 => format!("Q{} WHERE x = 'A  b'", s),
+        6 => format!("q{} /* żółć ☃ */", s),
+        7 => format!("  q{} -- ü \n;", s),
+        _ => format!("q{}", s),
+    }
+}
+
+fn trim_ws(s: &str) -> &str {
+    s.trim_matches(|c| c == ' ' || c == '\n' || c == '\t' || c == '\r')
+}
+
+/// which statement a query string is: a node's parser ignores surrounding whitespace, so a trimmed query string is
+/// the SAME statement (with a DIFFERENT id)
+fn stmt_of_text(text: &str) -> Option<usize> {
+    let t = trim_ws(text);
+    (0..8usize).rev().find(|s| (0..8u8).any(|tv| trim_ws(&text_v(*s, tv)) == t))
+}
+
+/// ids are rendered as hex of the exact query string + `#` + version
+fn show_id(id: &[u8]) -> String {
+    match id.iter().rposition(|b| *b == b'#') {
+        Some(i) => format!("{}#{}", hex_plain(&id[..i]), ascii(&id[i + 1..])),
+        None => hex_plain(id),
+    }
+}
+
 #[derive(Clone, Debug)]
 struct SrvStmt {
     idv: u32,
     shape: u8,
     kind: Kind,
     prep_fail: bool,
+    /// how the caller writes this statement's text (`text_v`)
+    tv: u8,
 }
 
 #[derive(Clone, Copy, PartialEq, Eq, Debug)]
@@ -155,8 +192,8 @@ impl NodeState {
     fn answer(&mut self, req: &Parsed) -> Answer {
         match req {
             Parsed::Prepare { text } => {
-                let s = match text.strip_prefix('q').and_then(|n| n.parse::<usize>().ok()) {
-                    Some(s) if s < 8 && s < self.st.len() => s,
+                let s = match stmt_of_text(text) {
+                    Some(s) if s < self.st.len() => s,
                     _ => return Answer::Error(0x2000),
                 };
                 let ss = self.st[s].clone();
@@ -171,7 +208,8 @@ impl NodeState {
                 if count {
                     self.ov = None;
                 }
-                let id = format!("q{}v{}", s, ss.idv).into_bytes();
+                // the id is a function of the EXACT bytes of the query string (a node uses md5; the identity is as good)
+                let id = format!("{}#{}", text, ss.idv).into_bytes();
                 self.prepared.insert(0, (id.clone(), s));
                 let normal = ss.kind == Kind::Normal && !count;
                 let mid = if !self.ext {
@@ -186,7 +224,7 @@ impl NodeState {
             }
             Parsed::Execute { id, result_metadata_id, params } => {
                 let Some(s) = self.lookup(id) else {
-                    return Answer::Unprepared(if self.liar { b"bogus".to_vec() } else { id.clone() });
+                    return Answer::Unprepared(if self.liar { b"bogus#0".to_vec() } else { id.clone() });
                 };
                 let ov = self.ov;
                 if matches!(ov, Some(Ov::ExecError | Ov::ExecVoid | Ov::Malformed | Ov::ForceMeta | Ov::ForceNoMeta)) {
@@ -233,7 +271,7 @@ impl NodeState {
                     if let BatchStmt::Prepared(id, _) = st
                         && self.lookup(id).is_none()
                     {
-                        return Answer::Unprepared(if self.liar { b"bogus".to_vec() } else { id.clone() });
+                        return Answer::Unprepared(if self.liar { b"bogus#0".to_vec() } else { id.clone() });
                     }
                 }
                 Answer::Void
@@ -314,11 +352,11 @@ fn val_i32(v: &Option<Vec<u8>>) -> String {
 
 fn show_req(node: usize, p: &Parsed) -> String {
     match p {
-        Parsed::Prepare { text } => format!(">n{} PREP {}", node, text),
+        Parsed::Prepare { text } => format!(">n{} PREP x{}", node, hex_plain(text.as_bytes())),
         Parsed::Execute { id, result_metadata_id, params } => format!(
             ">n{} EXEC id={} mid={} skip={} v={} cl={} scl={} ts={} pg={} ps={}",
             node,
-            ascii(id),
+            show_id(id),
             show_opt_id(result_metadata_id),
             params.skip_metadata as u8,
             if params.values.is_empty() { "-".to_owned() } else { params.values.iter().map(val_i32).collect::<Vec<_>>().join(",") },
@@ -332,7 +370,7 @@ fn show_req(node: usize, p: &Parsed) -> String {
             let items: Vec<String> = statements
                 .iter()
                 .map(|s| match s {
-                    BatchStmt::Prepared(id, v) => format!("{}/{}", ascii(id), v.iter().map(val_i32).collect::<Vec<_>>().join("+")),
+                    BatchStmt::Prepared(id, v) => format!("{}/{}", show_id(id), v.iter().map(val_i32).collect::<Vec<_>>().join("+")),
                     BatchStmt::Query(t, _) => format!("query:{}", t),
                 })
                 .collect();
@@ -344,7 +382,7 @@ fn show_req(node: usize, p: &Parsed) -> String {
 
 fn show_answer(a: &Answer) -> String {
     match a {
-        Answer::Unprepared(id) => format!("<unprepared:{}", ascii(id)),
+        Answer::Unprepared(id) => format!("<unprepared:{}", show_id(id)),
         Answer::Error(c) => format!("<error:{}", c),
         Answer::Void => "<void".to_owned(),
         Answer::Rows { no_meta, new_id, cols, .. } => {
@@ -357,7 +395,7 @@ fn show_answer(a: &Answer) -> String {
             format!("<rows:{}:{}", m, cols.len())
         }
         Answer::Prepared { id, mid, no_meta, col_count, cols } => {
-            format!("<prepared:{}:{}:{}", ascii(id), show_opt_id(mid), if *no_meta { format!("nometa{}", col_count) } else { show_cols_mk(cols) })
+            format!("<prepared:{}:{}:{}", show_id(id), show_opt_id(mid), if *no_meta { format!("nometa{}", col_count) } else { show_cols_mk(cols) })
         }
     }
 }
@@ -575,6 +613,9 @@ struct ObjInfo {
     latest: Vec<(String, String)>,
     /// the node that made it
     latest_src: usize,
+    /// the text the caller passed to `prepare()` for this object, and its statement number
+    text_given: String,
+    stmt_no: usize,
     /// a byzantine PREPARED (NO_METADATA with a column count) was delivered for it: no decode claims
     byz: bool,
     /// set when a METADATA_CHANGED response was delivered for it: (new id, new columns non-empty)
@@ -709,8 +750,9 @@ impl World<'_> {
         let n = op.frames.len();
         match &op.kind {
             OpKind::Fresh { slot } => {
-                if n != 0 || !matches!(parsed, Parsed::Prepare { text } if *text == format!("q{}", slot)) {
-                    fails.push(format!("prepare of q{}: unexpected frame #{}: {}", slot, n, show_req(node, parsed)));
+                let given = text_v(*slot, self.srv[op.node].st.get(*slot).map(|s| s.tv).unwrap_or(0));
+                if n != 0 || !matches!(parsed, Parsed::Prepare { text } if *text == given) {
+                    fails.push(format!("prepare of statement {}: the PREPARE frame #{} does not carry the text the caller passed, byte for byte: {}", slot, n, show_req(node, parsed)));
                 }
             }
             OpKind::Exec(e) => match n {
@@ -733,8 +775,8 @@ impl World<'_> {
                     if !matches!(op.answers.first(), Some(Answer::Unprepared(_))) {
                         fails.push("second frame although the first EXECUTE was not answered UNPREPARED".to_owned());
                     }
-                    if !matches!(parsed, Parsed::Prepare { text } if text == e.handle.get_statement()) {
-                        fails.push(format!("after UNPREPARED the node must see PREPARE of the same text, saw {}", show_req(node, parsed)));
+                    if !matches!(parsed, Parsed::Prepare { text } if *text == self.objs[e.obj].text_given) {
+                        fails.push(format!("after UNPREPARED the node must see PREPARE of the text the caller passed to prepare() (x{}), byte for byte; saw {}", hex_plain(self.objs[e.obj].text_given.as_bytes()), show_req(node, parsed)));
                     }
                 }
                 2 => {
@@ -774,9 +816,9 @@ impl World<'_> {
                 } else {
                     match op.answers.get(n - 1) {
                         Some(Answer::Unprepared(id)) => match items.iter().find(|(_, h, _)| h.get_id()[..] == id[..]) {
-                            Some((_, h, _)) => {
-                                if !matches!(parsed, Parsed::Prepare { text } if text == h.get_statement()) {
-                                    fails.push(format!("after UNPREPARED({}) the node must see PREPARE of that statement, saw {}", ascii(id), show_req(node, parsed)));
+                            Some((o, _, _)) => {
+                                if !matches!(parsed, Parsed::Prepare { text } if *text == self.objs[*o].text_given) {
+                                    fails.push(format!("after UNPREPARED({}) the node must see PREPARE of that statement's text as the caller passed it (x{}), byte for byte; saw {}", show_id(id), hex_plain(self.objs[*o].text_given.as_bytes()), show_req(node, parsed)));
                                 }
                             }
                             None => fails.push(format!("UNPREPARED names id {} which is not in the batch, yet the driver sent {}", ascii(id), show_req(node, parsed))),
@@ -891,7 +933,7 @@ impl World<'_> {
                                     // encodes under different columns: accepted by the property as worded ("announced"
                                     // is not per node / nobody told the client). Developer switch: report and classify.
                                     let src = op.latest_src_at_build.last().copied().unwrap_or(usize::MAX);
-                                    let stmt_no = e.handle.get_statement().trim_start_matches('q').parse::<usize>().unwrap_or(0);
+                                    let stmt_no = self.objs[e.obj].stmt_no;
                                     let src_now = self.srv.get(src).and_then(|n| n.st.get(stmt_no)).map(|s| cols_of_mk(&shape_cols(s.shape)));
                                     if src == op.node || src_now.as_ref() != Some(used) {
                                         fails.push(format!("C14-NOTE-A the cluster changed the columns to [{}] after [{}] was announced and nobody told this client (CQL v4 without the extension cannot)", show_cols(&enc), show_cols(used)));
@@ -938,7 +980,10 @@ impl World<'_> {
         let target: Option<(usize, PreparedStatement)> = match &op.kind {
             OpKind::Exec(e) => Some((e.obj, e.handle.clone())),
             OpKind::Batch { items, .. } => match op.frames.last() {
-                Some(Parsed::Prepare { text }) => items.iter().find(|(_, h, _)| h.get_statement() == text).map(|(o, h, _)| (*o, h.clone())),
+                Some(Parsed::Prepare { text }) => {
+                    let s = stmt_of_text(text);
+                    items.iter().find(|(o, _, _)| Some(self.objs[*o].stmt_no) == s).map(|(o, h, _)| (*o, h.clone()))
+                }
                 _ => None,
             },
             OpKind::Fresh { .. } => None,
@@ -1047,7 +1092,8 @@ impl World<'_> {
                     let obj = self.objs.len();
                     let byz = matches!(self.callers[k].op.as_ref().and_then(|o| o.answers.last()), Some(Answer::Prepared { no_meta: true, col_count, .. }) if *col_count > 0);
                     let src = self.callers[k].op.as_ref().map(|o| o.node).unwrap_or(usize::MAX);
-                    self.objs.push(ObjInfo { latest: cur_cols(&ps), latest_src: src, byz, expect_mid: None });
+                    let tv = self.srv.get(src).and_then(|n| n.st.get(*slot)).map(|s| s.tv).unwrap_or(0);
+                    self.objs.push(ObjInfo { latest: cur_cols(&ps), latest_src: src, text_given: text_v(*slot, tv), stmt_no: *slot, byz, expect_mid: None });
                     self.slots[*slot] = Some((obj, *ps));
                 }
                 self.callers[k].op = None;
@@ -1124,16 +1170,17 @@ async fn run_case(case: &str, ctx: &mut Ctx, net: &mut Net, clean: &mut bool) ->
     let mut stmts = Vec::new();
     for s in w[2].split(',') {
         let cs: Vec<char> = s.chars().collect();
-        if cs.len() != 2 || !cs[1].is_ascii_digit() {
+        if !((cs.len() == 2 || (cs.len() == 4 && cs[2] == 't' && ('0'..='7').contains(&cs[3]))) && cs[1].is_ascii_digit()) {
             return "bad-case".to_owned();
         }
+        let tv = if cs.len() == 4 { cs[3] as u8 - b'0' } else { 0 };
         let kind = match cs[0] {
             'n' => Kind::Normal,
             'l' => Kind::Late,
             'z' => Kind::Late0,
             _ => return "bad-case".to_owned(),
         };
-        stmts.push(SrvStmt { idv: 0, shape: cs[1] as u8 - b'0', kind, prep_fail: false });
+        stmts.push(SrvStmt { idv: 0, shape: cs[1] as u8 - b'0', kind, prep_fail: false, tv });
     }
     while net.ev_rx.try_recv().is_ok() {}
     let mut lid = Vec::new();
@@ -1200,7 +1247,7 @@ async fn run_case(case: &str, ctx: &mut Ctx, net: &mut Net, clean: &mut bool) ->
                     }
                     let conn = world.conn_for(k, n).await.map_err(|_| ())?;
                     let tx = world.net.ev_tx.clone();
-                    let text = format!("q{}", s);
+                    let text = text_v(s, stmts[s].tv);
                     tokio::spawn(async move {
                         let o = match conn.prepare(&Statement::new(text)).await {
                             Ok(ps) => Out::Prepared(Box::new(ps)),
@@ -1503,7 +1550,7 @@ fn random_history(rng: &mut Rng, max_len: usize) -> String {
         })
         .collect();
     let kinds = ["n1", "n3", "n2", "l3", "z3", "n0", "l1", "z4", "n5"];
-    let stmts: Vec<&str> = (0..n_stmts).map(|_| *rng.pick(&kinds)).collect();
+    let stmts: Vec<String> = (0..n_stmts).map(|_| format!("{}t{}", rng.pick(&kinds), rng.below(8))).collect();
     let mut steps: Vec<String> = Vec::new();
     // every statement is prepared somewhere first (sometimes on a node without the extension)
     for s in 0..n_stmts {
@@ -1587,7 +1634,11 @@ pub fn generate(rng: &mut Rng, tier: Tier, emit: &mut dyn FnMut(String)) {
                             continue;
                         }
                         let words: Vec<String> = syms.iter().map(|s| symbol(*s, u, a, b)).collect();
-                        emit(format!("hist {} {} N0.0.0;C0;{}", ext, stmt, words.join(";")));
+                        // the statement text in all 8 spellings for the short words, rotating for the long ones
+                        let tvs: Vec<usize> = if len <= 2 { (0..8).collect() } else { vec![(code + len + ci) % 8] };
+                        for tv in tvs {
+                            emit(format!("hist {} {}t{} N0.0.0;C0;{}", ext, stmt, tv, words.join(";")));
+                        }
                     }
                 }
             }
@@ -1622,7 +1673,8 @@ pub fn generate(rng: &mut Rng, tier: Tier, emit: &mut dyn FnMut(String)) {
                                         steps.push(tail.to_owned());
                                     }
                                     steps.push(format!("A0.x.0.0.{}.6.-.-.-.-.1;C0", u));
-                                    emit(format!("hist {} {} {}", ext, stmt, steps.join(";")));
+                                    let tv = (e0.len() + 3 * e1.len() + 5 * e2.len() + warm as usize) % 8;
+                                    emit(format!("hist {} {}t{} {}", ext, stmt, tv, steps.join(";")));
                                 }
                             }
                         }
@@ -1657,7 +1709,7 @@ pub fn generate(rng: &mut Rng, tier: Tier, emit: &mut dyn FnMut(String)) {
                         continue;
                     }
                     let words: Vec<&str> = syms.iter().map(|s| alphabet[*s].as_str()).collect();
-                    emit(format!("hist {} n1,z3 N0.0.0;C0;N0.1.1;C0;{}", nodes, words.join(";")));
+                    emit(format!("hist {} n1t{},z3t{} N0.0.0;C0;N0.1.1;C0;{}", nodes, code % 8, (code / 8 + len) % 8, words.join(";")));
                 }
             }
         }
@@ -1694,7 +1746,7 @@ pub fn generate(rng: &mut Rng, tier: Tier, emit: &mut dyn FnMut(String)) {
                                 }
                                 steps.extend(il[pos..].iter().cloned());
                                 steps.push(format!("A0.x.0.0.{}.6.-.-.-.-.1;C0;A1.x.0.1.{}.6.-.-.-.-.1;C1", u, u));
-                                emit(format!("hist {} n1,n3 {}", nodes, steps.join(";")));
+                                emit(format!("hist {} n1t{},n3t{} {}", nodes, (ii + pos) % 8, (ii + ei) % 8, steps.join(";")));
                             }
                         }
                     }
